@@ -26,17 +26,32 @@ TECHNIQUE = "static analysis of built MIR: edge dominance over the poll state ma
 CRATE = "tower_resilience_reconnect"
 
 
+class _SetSite:
+    """`phase.set(Phase::V(..))`, or the place where the Phase::V value is built when the set is shared by several arms
+    (`let next = match .. { .. => Phase::V(..), .. }; phase.set(next)`): guards are looked for where the value is decided"""
+
+    def __init__(self, g, c, bb, idx):
+        self.g, self.c, self.bb, self.idx = g, c, bb, idx
+        self.args, self.loc = c.args, c.loc
+
+    def where(self):
+        return self.g.where(self.bb, self.idx) if self.bb != self.c.bb else self.c.where()
+
+
 def _phase_sets(tr, b):
-    """(Call, variant) for `phase.set(Phase::V(..))`"""
+    """(site, variant, aggregate node) for `phase.set(Phase::V(..))`"""
     out = []
     g = graph(b)
     for c in g.calls():
         if c.name == "set" and "Pin" in (c.def_ or "") and len(c.args) > 1:
-            v = peel(tr.expand(tr.operand(b, c.args[1], c.loc)))
-            if v[0] == "agg":
-                _b, rv = tr.agg_of(v)
-                if rv["ak"] == "adt" and rv["def"].endswith("::Phase"):
-                    out.append((c, rv["variant"], v))
+            vs = leaves(tr.expand(tr.operand(b, c.args[1], c.loc)))
+            for v in vs:
+                v = peel(v)
+                if v[0] == "agg":
+                    b2, rv = tr.agg_of(v)
+                    if rv["ak"] == "adt" and rv["def"].endswith("::Phase"):
+                        site = _SetSite(g, c, c.bb, None) if len(vs) == 1 or b2 is not b else _SetSite(g, c, v[3], v[4])
+                        out.append((site, rv["variant"], v))
     return out
 
 
@@ -102,6 +117,12 @@ def _flag_true(tr, edges, field):
 def run(facts, tr, rep):
     _n_ops = check_no_panicking_time_arith(facts, tr, rep, "C16.NO-PANIC-ARITH", facts.crates[CRATE].bodies)
     rep.note("panicking Instant/Duration operators examined in the crate: %d" % _n_ops)
+    # the state's transitions, the reconnect predicate and the delay policy stay calls (they are what the rules ask
+    # about); every other private helper of the service and of its future is inlined (a `FailureVerdict::decide`
+    # classification step, a shared `Phase::dispatch` that makes the wrapped call, event helpers)
+    from ..inline import view_of
+    ROLE_NAMES = ("should_reconnect", "delay_for_attempt", "mark_connected", "mark_disconnected", "mark_reconnecting", "project")
+    facts, tr = view_of(facts, {b0.def_ for b0 in facts.crates[CRATE].bodies if b0.kind == "fn" and b0.name in ROLE_NAMES})
     sbs = service_call_bodies(facts, crate=CRATE)
     if not sbs:
         rep.anchor_missing("Service::call of the reconnect service")
